@@ -1256,6 +1256,10 @@ class TransferManager(BaseManager):
                 username
             )
             if not shared_item:
+                # The upload can be in the middle of its negotiation or of the
+                # transfer itself: stop that before failing it, otherwise the
+                # task would put the transfer back in the queue later on
+                await asyncio.gather(*transfer.cancel_tasks(), return_exceptions=True)
                 await transfer.state.fail(FailReason.FILE_NOT_SHARED)
                 fail_reason = FailReason.FILE_NOT_SHARED
 
